@@ -138,6 +138,12 @@ def replay_defrag_case(case):
         elif c_.get("data") != s_.get("data"):
             fails.append((sig("values", source_type=tys[c]), dict(bundle, channel=c, expected=(s_.get("data") or [])[:6],
                                                                 observed=(c_.get("data") or [])[:6])))
+        elif tys[c] is not None and c != scaled_chan and \
+                c_.get("data") != proj.expected_elems(tys[c], e.values.get(c, [])):
+            # source and copy agree with each other but not with what the source file holds
+            fails.append((sig("values-vs-content", source_type=tys[c]),
+                          dict(bundle, channel=c, expected=proj.expected_elems(tys[c], e.values.get(c, []))[:6],
+                               observed=(c_.get("data") or [])[:6])))
         if n > 0 and c_["ty"] != s_["ty"]:
             fails.append(({"kind": "defragment-tdms-type", "source_type": s_["ty"], "copy_type": c_["ty"], "min_len": n},
                           dict(bundle, channel=c, expected=s_["ty"], observed=c_["ty"])))
